@@ -2,13 +2,13 @@
 from verif import *
 from props.routers import *
 
-THEOREMS = []
+THEOREMS = ['c08_pubsub_others_unaffected', 'c08_fanout_evicts_exactly_one', 'c08_invariant_reachable', 'c08_reqrep_survives_failures']
 
 
 def run(tier, seed, replay=None):
     check = Check('C08', tier, seed)
     if THEOREMS:
-        prove(check, '', THEOREMS)
+        prove(check, 'theories/Props_C08.v', THEOREMS)
     engines = ['ps', 'rr']
     if replay:
         head = open(replay).read(4000)
